@@ -28,8 +28,9 @@ def run(sid, prop):
                 "undecided": [u[:240] for u in und[:3]]}
     finally:
         tag = "-" + hashlib.sha256(d.encode()).hexdigest()[:8]
-        for x in ("kani-target" + tag, "replay-target" + tag, "replay-crate" + tag):
-            shutil.rmtree(os.path.join(V, ".build", x), ignore_errors=True)
+        import glob
+        for x in glob.glob(os.path.join(V, ".build", "*" + tag)) + glob.glob(os.path.join(V, ".build", "*" + tag + "-*")):
+            shutil.rmtree(x, ignore_errors=True)
         shutil.rmtree(d, ignore_errors=True)
 
 
